@@ -321,6 +321,16 @@ impl World {
             let p = self.slots.slot_ptr(f.slot as usize % SLOTS);
             fx_arm(f.at, f.drop, p);
         }
+        // ... or another thread that acts on another handle at one of the crate's allocator calls / buffer accesses
+        let intr = if fx.is_none() { self.intrude.take() } else { None };
+        let intr = intr.filter(|x| {
+            let s = x.slot % SLOTS as u8;
+            !op.touches().iter().any(|t| t % SLOTS as u8 == s) && self.slots[s as usize].is_some()
+        });
+        if let Some(x) = intr {
+            let p = self.slots.slot_ptr(x.slot as usize % SLOTS);
+            crate::callbacks::hook_fx_arm(x.at, x.drop, p);
+        }
         let g0 = shadow::global_allocs();
         let res = catch_unwind(AssertUnwindSafe(|| self.apply_real_inner(op, r)));
         let g = shadow::global_allocs() - g0;
@@ -328,6 +338,11 @@ impl World {
         if let Some(f) = fx {
             if fx_disarm() {
                 self.last_fx = Some((f.slot % SLOTS as u8, f.drop));
+            }
+        }
+        if let Some(x) = intr {
+            if crate::callbacks::hook_fx_disarm() {
+                self.last_fx = Some((x.slot % SLOTS as u8, x.drop));
             }
         }
         self.last_other_allocs = None;
